@@ -1,20 +1,20 @@
 SPECIFICATION MCSpec
 CONSTANTS
   Clients = {1, 2}
-  Idx = {1}
-  Cfl = {0, 1}
-  Val = {1, 2}
+  Idx = {1, 2}
+  Cfl = {0, 1, 2}
+  Val = {1, 2, 3}
   SecUnits = 4
   Nil = Nil
   MCConf <- ConfConc
-  MCKeys <- KeysOne
-  CostSet = {1}
+  MCKeys <- KeysTwo
+  CostSet = {1, 2}
   TtlSet = {0}
   MaxCostSet = {2}
   SetMaxSet = {1}
   AdvSet = {}
   Budget = 2
-  Ops = {"insert", "wait", "clear", "close", "get", "remove"}
+  Ops = {"insert", "remove", "get", "wait", "clear"}
   TickOn = FALSE
   MaxNow = 0
 INVARIANTS UsedIsSum Bounded Agree Conservation NeverTwice NothingLost ResidentOwned IndexExact NoOrphan MetricsLaws MetricsCounts NoLoss CondNeverCreates ClearEmpties ChargeFormula
